@@ -81,6 +81,8 @@ impl<T> BreakUp<T> for Vec<T> {
 
 pub(crate) fn valid_ident() -> &'static Regex {
     static VALID_IDENT: OnceLock<Regex> = OnceLock::new();
+    #[cfg(max_sixty_prql_verif)]
+    let _v = crate::verif_hooks::once("VALID_IDENT", VALID_IDENT.get().is_some());
     VALID_IDENT.get_or_init(|| {
         // One of:
         // - `*`
